@@ -34,11 +34,7 @@ static void trip(Case& c, Obs& o) {
 	catch (const std::bad_alloc&) { o.add(21); o.add(3); return; }
 	catch (const std::logic_error&) { o.add(21); o.add(1); return; }
 	catch (const std::exception&) { o.add(21); o.add(2); return; }
-	Potassco::SmodelsInput::Options opts;
-	opts.enableClaspExt();
-	if (cE)  { opts.convertEdges(); }
-	if (cH)  { opts.convertHeuristic(); }
-	if (flt) { opts.dropConverted(); }
+	Potassco::SmodelsInput::Options opts = reuse::smodelsOptions(c, true, cE != 0, cH != 0, flt != 0); // builder calls in a case-derived order
 	Rec8 rec(o);
 	std::istringstream primer(std::string(pr ? pr->text : ""));
 	try {
